@@ -173,7 +173,7 @@ def ghostEntry (e : Pos × Nat) : Sx :=
   .atom (toString e.1.line ++ ":" ++ toString e.1.col ++ "=" ++ toString e.2)
 
 /-- run the programs of a session one after the other on the session frame; the response rows followed by the ghost row -/
-def runSession (ld : Loader) (fuel : Nat) (s0 : State) (senv : EnvId) (progs : List Sx) : List Sx := Id.run do
+def runSessionRows (ld : Loader) (fuel : Nat) (s0 : State) (senv : EnvId) (progs : List Sx) : List Sx := Id.run do
     let step := fun (acc : State × List Sx) (p : Sx) =>
       let (s, outs) := acc
       match p with
@@ -216,7 +216,7 @@ def handleEval : Sx → Option Sx
                        "predicate.ckl", "random.ckl", "set.ckl", "stat.ckl", "string.ckl", "sys.ckl", "type.ckl"] }
     let realBase ← baseNames.mapM decStr?
     let (s0, senv) := initialState secure (if realBase.isEmpty then modelledNatives else modelledNatives.filter realBase.contains)
-    some (.list (.atom "session" :: runSession ld fuel s0 senv progs))
+    some (.list (.atom "session" :: runSessionRows ld fuel s0 senv progs))
   | _ => none
 
 
@@ -253,7 +253,7 @@ def libSetup : Sx → Option (Except Sx LibSetup)
   | _ => none
 
 def libSession (c : LibSetup) : Sx → Option Sx
-  | .list (.atom "libsession" :: progs) => some (.list (.atom "session" :: runSession c.ld c.fuel c.s0 c.senv progs))
+  | .list (.atom "libsession" :: progs) => some (.list (.atom "session" :: runSessionRows c.ld c.fuel c.s0 c.senv progs))
   | _ => none
 
 end Ckl
